@@ -40,15 +40,35 @@ ProdSeq(s) == IF s = <<>> THEN 1 ELSE s[1] * ProdSeq(Tail(s))
 RECURSIVE FirstLevel(_, _, _, _, _)
 FirstLevel(fam, rule, type, e, l) == IF Exactness(fam, rule, type, l) >= e THEN l ELSE FirstLevel(fam, rule, type, e, l + 1)
 
-\* scaled (10^6) curved weight of an index; the table look-ups are off by at most 1/2 each
-CurvedW6(fam, rule, type, t, lin, cur) ==
-    SumSeq([j \in 1..Len(t) |-> LET e == EOf(fam, rule, type, t[j]) IN lin[j] * e * 1000000 + cur[j] * Ln6(1 + e)])
+\* curved weight of an index: A + B / 10^6 with A = sum lin_j e_j (exact) and B = sum cur_j ln(1 + e_j).
+\* B is carried as Bhi * 1000 + Blo in units of 10^-6 so that estimated weights of the order 10^4 do not overflow
+\* TLC's 32-bit integers; each table look-up is off by at most 1/2 unit.  Indexes with a huge exactness are
+\* outside without looking at the table: lin_j >= 1, so the weight is at least e - |cur| ln(1 + e).
+LnHi(n) == Ln6(n) \div 1000
+LnLo(n) == Ln6(n) % 1000
 CurvedIn(fam, rule, type, t, lin, cur, noff) ==
-    LET w == CurvedW6(fam, rule, type, t, lin, cur)
-        slack == SumSeq([j \in 1..Len(t) |-> Abs(cur[j])]) + 1
-    IN IF Abs(w - noff * 1000000) <= slack
-       THEN Assert(FALSE, <<"ambiguous curved weight comparison", t, w, noff>>)
-       ELSE w <= noff * 1000000
+    LET es == [j \in 1..Len(t) |-> EOf(fam, rule, type, t[j])]
+    IN IF \E j \in 1..Len(t) : es[j] >= 299 THEN FALSE
+       ELSE IF \E j \in 1..Len(t) : Abs(cur[j]) > 60000 \/ Abs(lin[j]) > 60000
+            THEN Assert(FALSE, <<"anisotropic weights too large for exact integer arithmetic", lin, cur>>)
+       ELSE LET A == SumSeq([j \in 1..Len(t) |-> lin[j] * es[j]])
+                Bhi == SumSeq([j \in 1..Len(t) |-> cur[j] * LnHi(1 + es[j])])
+                Blo == SumSeq([j \in 1..Len(t) |-> cur[j] * LnLo(1 + es[j])])
+                slack == SumSeq([j \in 1..Len(t) |-> IF es[j] > 0 THEN Abs(cur[j]) ELSE 0])   \* ln(1) = 0 exactly; zero slack: exact comparison
+                gap == noff - A
+                D == Bhi - gap * 1000                    \* units of 10^-3
+            IN IF gap > 2000000 THEN TRUE ELSE IF gap < -2000000 THEN FALSE
+               ELSE IF D > 200000 THEN FALSE ELSE IF D < -200000 THEN TRUE
+               ELSE LET v == D * 1000 + Blo              \* weight - offset in units of 10^-6
+                    IN IF slack > 0 /\ Abs(v) <= slack
+                       THEN Assert(FALSE, <<"ambiguous curved weight comparison", t, A, Bhi, Blo, noff>>)
+                       ELSE v <= 0
+
+\* largest index i (at most 60) with Pred(0..i) true, for monotone Pred; -1 if Pred(0) fails
+RECURSIVE LastTrue(_, _)
+LastTrue(Pred(_), i) == IF i > 60 THEN 60 ELSE IF Pred(i) THEN LastTrue(Pred, i + 1) ELSE i - 1
+\* all tuples bounded per dimension by bnd
+BoxUpTo(d, bnd) == LET m == MaxEntry({bnd}) IN {t \in Cube(d, m) : \A j \in 1..d : t[j] <= bnd[j]}
 
 \* region grown from the origin through children that satisfy Crit (generateGeneralMultiIndexSet), inside the cube 0..cap
 RECURSIVE Grow(_, _, _, _)
@@ -65,12 +85,14 @@ SelectTensors(fam, rule, d, depth, type, aw, ll) ==
     ELSE IF type \in LevelTypes THEN
         LET lin  == IF aw = <<>> THEN [j \in 1..d |-> 1] ELSE aw
             noff == depth * MinOf(lin)
-        IN {t \in Cube(d, depth) : WithinLimits(t, ll) /\ SumSeq([j \in 1..d |-> lin[j] * EOf(fam, rule, type, t[j])]) <= noff}
+            bnd  == [j \in 1..d |-> LET P(i) == lin[j] * EOf(fam, rule, type, i) <= noff IN LastTrue(P, 0)]
+        IN {t \in BoxUpTo(d, bnd) : WithinLimits(t, ll) /\ SumSeq([j \in 1..d |-> lin[j] * EOf(fam, rule, type, t[j])]) <= noff}
     ELSE IF type \in HyperbolicTypes THEN
         \* exponents are weights / min weight: exact only when all weights are equal (or absent)
         IF aw # <<>> /\ \E j \in 1..d : aw[j] # aw[1]
         THEN Assert(FALSE, "hyperbolic selection with unequal weights is not covered by the exact specification")
-        ELSE {t \in Cube(d, depth) : WithinLimits(t, ll) /\ ProdSeq([j \in 1..d |-> 1 + EOf(fam, rule, type, t[j])]) <= depth}
+        ELSE LET bnd == [j \in 1..d |-> LET P(i) == 1 + EOf(fam, rule, type, i) <= depth IN LastTrue(P, 0)]
+             IN {t \in BoxUpTo(d, bnd) : WithinLimits(t, ll) /\ ProdSeq([j \in 1..d |-> 1 + EOf(fam, rule, type, t[j])]) <= depth}
     ELSE \* curved
         LET lin  == IF aw = <<>> THEN [j \in 1..d |-> 1] ELSE SubSeq(aw, 1, d)
             cur  == IF aw = <<>> THEN [j \in 1..d |-> 0] ELSE SubSeq(aw, d + 1, 2 * d)
@@ -78,7 +100,9 @@ SelectTensors(fam, rule, d, depth, type, aw, ll) ==
             lower == \A j \in 1..d : lin[j] + cur[j] >= 0
             cap  == 2 * depth + 6
             In(t) == WithinLimits(t, ll) /\ CurvedIn(fam, rule, type, t, lin, cur, noff)
-        IN IF lower THEN {t \in Cube(d, depth) : In(t)}
+            unit(j, i) == [m \in 1..d |-> IF m = j THEN i ELSE 0]
+            bnd  == [j \in 1..d |-> LET P(i) == CurvedIn(fam, rule, type, unit(j, i), lin, cur, noff) IN LastTrue(P, 0)]
+        IN IF lower THEN {t \in BoxUpTo(d, bnd) : In(t)}
            ELSE LET origin == [j \in 1..d |-> 0]
                     reg == Grow({origin}, {origin}, In, cap)
                 IN IF \E t \in reg : \E j \in 1..d : t[j] = cap
